@@ -59,7 +59,7 @@ Definition nil_fs_case (e : env) (h : host) (c : call) : bool :=
   match c with
   | FdFilestatSetTimes fd _ _ fl =>
       match lookup e (i32 fd) with
-      | Some x => negb (times_invalid (wrap 16 fl)) && ((h_e1 h =? EPERM) || (h_e1 h =? ENOSYS)) && nofs x
+      | Some x => negb (times_invalid (wrap 16 fl)) && ((h_e1 h =? EPERM) || (h_e1 h =? ENOSYS)) && nofs x && negb set_times_checks_fs
       | None => false
       end
   | _ => false
@@ -68,34 +68,42 @@ Definition nil_fs_case (e : env) (h : host) (c : call) : bool :=
 (* ---------------------------------------------------------------- the invariant of a result *)
 Definition okw (m : mem) (w : Z * Z) : Prop := 0 <= fst w /\ 0 <= snd w /\ fst w + snd w <= m_len m.
 Definition wok (m : mem) (D : Z * Z -> Prop) (w : Z * Z) : Prop := okw m w /\ exists d, D d /\ sub_region w d.
-Definition good (m : mem) (D : Z * Z -> Prop) (B : Z) (r : res) : Prop :=
-  r_out r <> Panic /\ Forall (wok m D) (r_w r) /\ 0 <= r_alloc r <= B.
+(* a designated descriptor f is carried as the pseudo-region (f, -1) so that one predicate D describes both *)
+(* an acceptable outcome: no host panic, and an error number is never 0 *)
+Definition okout (o : outcome) : Prop := o <> Panic /\ forall x, o = Errno x -> x <> 0.
+Ltac enz := let x := fresh in let He := fresh in
+  intros x He; first [discriminate He | injection He as <-; first [assumption | cbv; discriminate | lia]].
+Ltac okt := split; [discriminate | enz].
 
-Lemma good_ret m (D : Z * Z -> Prop) B o : o <> Panic -> 0 <= B -> good m D B (ret o).
+Definition good (m : mem) (D : Z * Z -> Prop) (B : Z) (r : res) : Prop :=
+  okout (r_out r) /\ Forall (wok m D) (r_w r) /\ 0 <= r_alloc r <= B /\ Forall (fun f => D (f, -1)) (r_fds r).
+
+Lemma good_ret m (D : Z * Z -> Prop) B o : okout o -> 0 <= B -> good m D B (ret o).
 Proof. intros Ho HB. unfold good, ret; cbn. splits; auto; lia. Qed.
 
 Lemma good_addw m (D : Z * Z -> Prop) B off n r : okw m (off, n) -> (exists d, D d /\ sub_region (off, n) d) -> good m D B r -> good m D B (addw off n r).
-Proof. intros Hk Hd (A & W & C). unfold good, addw; cbn. splits; auto; try lia. constructor; [split; assumption|assumption]. Qed.
+Proof. intros Hk Hd (A & W & C & F). unfold good, addw; cbn. splits; auto; try lia. constructor; [split; assumption|assumption]. Qed.
 
 Lemma good_adda m (D : Z * Z -> Prop) B a r : 0 <= a -> good m D (B - a) r -> good m D B (adda a r).
-Proof. intros Ha (A & W & C). unfold good, adda; cbn. splits; auto; lia. Qed.
+Proof. intros Ha (A & W & C & F). unfold good, adda; cbn. splits; auto; lia. Qed.
 
-Lemma good_addf m (D : Z * Z -> Prop) B f r : good m D B r -> good m D B (addf f r).
-Proof. intros (A & W & C). unfold good, addf; cbn. splits; auto; lia. Qed.
+Lemma good_addf m (D : Z * Z -> Prop) B f r : D (f, -1) -> good m D B r -> good m D B (addf f r).
+Proof. intros Hf (A & W & C & F). unfold good, addf; cbn. splits; auto; lia. Qed.
 
 Lemma good_addc m (D : Z * Z -> Prop) B l r : good m D B r -> good m D B (addc l r).
-Proof. intros (A & W & C). unfold good, addc; cbn. splits; auto; lia. Qed.
+Proof. intros (A & W & C & F). unfold good, addc; cbn. splits; auto; lia. Qed.
 
 Lemma good_mono m (D D' : Z * Z -> Prop) B B' r : (forall d, D d -> D' d) -> B <= B' -> good m (D : Z * Z -> Prop) B r -> good m D' B' r.
 Proof.
-  intros HD HB (A & W & C). unfold good. splits; auto; try lia.
-  eapply Forall_impl; [|exact W]. intros w (Hk & d & Hd & Hs). split; [exact Hk|]. exists d. auto.
+  intros HD HB (A & W & C & F). unfold good. splits; auto; try lia.
+  - eapply Forall_impl; [|exact W]. intros w (Hk & d & Hd & Hs). split; [exact Hk|]. exists d. auto.
+  - eapply Forall_impl; [|exact F]. intros f Hf. apply HD. exact Hf.
 Qed.
 
-Lemma good_g_read m (D : Z * Z -> Prop) B off n e k : wf_mem m -> u32 off -> u32 n -> 0 <= B ->
+Lemma good_g_read m (D : Z * Z -> Prop) B off n e k : e <> 0 -> wf_mem m -> u32 off -> u32 n -> 0 <= B ->
   (off + n <= m_len m -> good m D B (k tt)) -> good m D B (g_read m off n e k).
 Proof.
-  intros Hm Ho Hn HB Hk. unfold g_read.
+  intros He0 Hm Ho Hn HB Hk. unfold g_read.
   destruct (read_region_exact m off n Hm Ho Hn) as (Hnp & Hok).
   destruct (read_region m off n) eqn:E.
   - apply Hk. apply Hok. destruct v; [reflexivity| |]; exfalso.
@@ -103,16 +111,16 @@ Proof.
       destruct ((off <=? wrap 64 (off + n)) && (wrap 64 (off + n) <=? m_len m)); discriminate.
     + unfold read_region in E. destruct (has_size m off n); [|discriminate].
       destruct ((off <=? wrap 64 (off + n)) && (wrap 64 (off + n) <=? m_len m)); discriminate.
-  - apply good_ret; [discriminate|exact HB].
+  - apply good_ret; [okt|exact HB].
   - congruence.
 Qed.
 
-Lemma good_g_rfix m (D : Z * Z -> Prop) B off n e k : wf_mem m -> u32 off -> (n <= 8)%nat -> 0 <= B ->
+Lemma good_g_rfix m (D : Z * Z -> Prop) B off n e k : e <> 0 -> wf_mem m -> u32 off -> (n <= 8)%nat -> 0 <= B ->
   good m D B (k tt) -> good m D B (g_rfix m off n e k).
 Proof.
-  intros Hm Ho Hn HB Hk. unfold g_rfix.
+  intros He0 Hm Ho Hn HB Hk. unfold g_rfix.
   destruct (read_fixed_exact m off n Hm Ho Hn) as (Hnp & _).
-  destruct (read_fixed m off n); [exact Hk|apply good_ret; [discriminate|exact HB]|congruence].
+  destruct (read_fixed m off n); [exact Hk|apply good_ret; [okt|exact HB]|congruence].
 Qed.
 
 Lemma wfix_cases m off n : wf_mem m -> u32 off -> (n <= 8)%nat ->
@@ -147,10 +155,10 @@ Proof.
 Qed.
 
 Lemma good_hostop m (D : Z * Z -> Prop) B er k : 0 <= B -> good m D B (k tt) -> good m D B (hostop er k).
-Proof. intros HB Hk. unfold hostop. destruct (er =? 0); [exact Hk|apply good_ret; [discriminate|exact HB]]. Qed.
+Proof. intros HB Hk. unfold hostop. destruct (Z.eqb_spec er 0); [exact Hk|apply good_ret; [okt|exact HB]]. Qed.
 
 Lemma good_with_fd m (D : Z * Z -> Prop) B e fd k : 0 <= B -> (forall x, lookup e fd = Some x -> good m D B (k x)) -> good m D B (with_fd e fd k).
-Proof. intros HB Hk. unfold with_fd. destruct (lookup e fd); [apply Hk; reflexivity|apply good_ret; [discriminate|exact HB]]. Qed.
+Proof. intros HB Hk. unfold with_fd. destruct (lookup e fd); [apply Hk; reflexivity|apply good_ret; [okt|exact HB]]. Qed.
 
 Lemma sub_refl w : sub_region w w.
 Proof. unfold sub_region. lia. Qed.
@@ -181,13 +189,13 @@ Proof.
   intros Hm (Hf & H4 & Hs) Ha Hb HB Da Db. unfold write_offsets. cbv zeta.
   pose proof (nt_size_nonneg lens Hf) as Hnn.
   rewrite (wrap_small 32 (Z.of_nat (length lens) * 4)) by lia.
-  apply good_g_read; [assumption|assumption|unfold u32; lia|assumption|intros H1].
-  apply good_g_read; [assumption|assumption|unfold u32; lia|assumption|intros H2].
+  apply good_g_read; [discriminate|assumption|assumption|unfold u32; lia|assumption|intros H1].
+  apply good_g_read; [discriminate|assumption|assumption|unfold u32; lia|assumption|intros H2].
   rewrite wo_loop_ok by (try assumption; lia).
   unfold u32 in *.
   apply good_addw; [unfold okw; cbn [fst snd]; lia| exists (a, 4 * Z.of_nat (length lens)); split; [assumption|unfold sub_region; cbn [fst snd]; lia] |].
   apply good_addw; [unfold okw; cbn [fst snd]; lia| exists (b, nt_size lens); split; [assumption|apply sub_refl] |].
-  apply good_ret; [discriminate|assumption].
+  apply good_ret; [okt|assumption].
 Qed.
 
 (* ---------------------------------------------------------------- iovec loops *)
@@ -214,13 +222,13 @@ Proof.
   destruct (Hv (pos / 8)) as (Hu1 & Hu2).
   destruct (Z.eqb_spec (snd (v_iov v (pos / 8))) 0) as [Hz|Hnz].
   { apply IH; lia. }
-  apply good_g_read; [assumption|assumption|assumption|assumption|intros Hle].
+  apply good_g_read; [discriminate|assumption|assumption|assumption|assumption|intros Hle].
   apply good_addw.
   { unfold okw, u32 in *; cbn [fst snd]. lia. }
   { exists (v_iov v (pos / 8)). split; [apply HD; lia|]. rewrite <- surjective_pairing. apply sub_refl. }
   apply good_addc.
-  destruct (snd (h_rw h k) =? ENOSYS); [apply good_ret; [discriminate|assumption]|].
-  destruct (snd (h_rw h k) =? 0); cbn [negb]; [|apply good_ret; [discriminate|assumption]].
+  destruct (snd (h_rw h k) =? ENOSYS); [apply good_ret; [okt|assumption]|].
+  destruct (Z.eqb_spec (snd (h_rw h k)) 0); cbn [negb]; [|apply good_ret; [okt|assumption]].
   destruct (fst (h_rw h k) <? snd (v_iov v (pos / 8))); [apply Hk|].
   apply IH; lia.
 Qed.
@@ -232,7 +240,7 @@ Lemma readv_good m v h (D : Z * Z -> Prop) B iovs cnt kont : wf_mem m -> wf_view
 Proof.
   intros Hm Hv HB Hi Hc Hk HD. unfold readv.
   destruct (iov_stop_facts cnt Hc) as (Hs & Hs8 & Hsc). unfold u32 in Hs.
-  apply good_g_read; [assumption|assumption|exact Hs|assumption|intros _].
+  apply good_g_read; [discriminate|assumption|assumption|exact Hs|assumption|intros _].
   apply readv_loop_good; try assumption; try lia.
   intros i Hi'. apply HD. lia.
 Qed.
@@ -248,11 +256,11 @@ Proof.
   rewrite iov_idx_ok_true by lia. cbn [negb]. cbv zeta.
   assert (Hw : wrap 32 (pos + 8) = pos + 8) by (apply wrap_small; lia). rewrite Hw.
   destruct (Hv (pos / 8)) as (Hu1 & Hu2).
-  apply good_g_read; [assumption|assumption|assumption|assumption|intros Hle].
+  apply good_g_read; [discriminate|assumption|assumption|assumption|assumption|intros Hle].
   destruct (s0 && (snd (v_iov v (pos / 8)) =? 0)); [apply IH; lia|].
   apply good_addc.
-  destruct (snd (h_rw h k) =? ENOSYS); [apply good_ret; [discriminate|assumption]|].
-  destruct (snd (h_rw h k) =? 0); cbn [negb]; [|apply good_ret; [discriminate|assumption]].
+  destruct (snd (h_rw h k) =? ENOSYS); [apply good_ret; [okt|assumption]|].
+  destruct (Z.eqb_spec (snd (h_rw h k)) 0); cbn [negb]; [|apply good_ret; [okt|assumption]].
   apply IH; lia.
 Qed.
 
@@ -262,7 +270,7 @@ Lemma writev_good m v h (D : Z * Z -> Prop) B s0 iovs cnt kont : wf_mem m -> wf_
 Proof.
   intros Hm Hv HB Hi Hc Hk. unfold writev.
   destruct (iov_stop_facts cnt Hc) as (Hs & Hs8 & Hsc). unfold u32 in Hs.
-  apply good_g_read; [assumption|assumption|exact Hs|assumption|intros _].
+  apply good_g_read; [discriminate|assumption|assumption|exact Hs|assumption|intros _].
   apply writev_loop_good; try assumption; lia.
 Qed.
 
@@ -280,7 +288,7 @@ Proof. intros H. unfold wev_ok. rewrite andb_true_iff. lia. Qed.
 Lemma poll_loop_ok e v nsub : 0 < nsub -> nsub * 48 < 2 ^ 32 ->
   forall fuel i nev blk, 0 <= nev -> 0 <= blk -> nev + blk <= i -> i <= nsub -> nsub - i < Z.of_nat fuel ->
   match poll_loop e v nsub (nsub * 48) (nsub * 32) fuel i nev blk with
-  | PErr o => o <> Panic
+  | PErr o => okout o
   | PEnd nev' blk' => 0 <= nev' /\ 0 <= blk' /\ nev' + blk' <= nsub
   end.
 Proof.
@@ -296,13 +304,13 @@ Proof.
   rewrite A32, A4. cbn [negb].
   destruct (fst (fst (v_sub v i)) =? EventTypeClock).
   { destruct (snd (v_sub v i) =? 0); [apply IH; lia|].
-    destruct (snd (v_sub v i) =? 1); discriminate. }
+    destruct (snd (v_sub v i) =? 1); okt. }
   destruct (fst (fst (v_sub v i)) =? EventTypeFdRead).
-  { destruct (i32 (snd (fst (v_sub v i))) <? 0); [discriminate|].
+  { destruct (i32 (snd (fst (v_sub v i))) <? 0); [okt|].
     match goal with |- context [if ?c then _ else _] => destruct c end; apply IH; lia. }
   destruct (fst (fst (v_sub v i)) =? EventTypeFdWrite).
-  { destruct (i32 (snd (fst (v_sub v i))) <? 0); [discriminate|]. apply IH; lia. }
-  discriminate.
+  { destruct (i32 (snd (fst (v_sub v i))) <? 0); [okt|]. apply IH; lia. }
+  okt.
 Qed.
 
 Lemma blk_loop_ok nsub : forall blk nev, 0 <= nev -> nev + Z.of_nat blk <= nsub -> nsub * 32 < 2 ^ 32 ->
@@ -318,29 +326,29 @@ Lemma poll_good e m v h (D : Z * Z -> Prop) B inp outp nsub r : wf_mem m -> u32 
   good m D B (poll_oneoff e m v h inp outp nsub r).
 Proof.
   intros Hm Hi Ho Hn Hr Do Dr HB. unfold poll_oneoff. unfold u32, wf_mem in *.
-  destruct (Z.eqb_spec nsub 0); [apply good_ret; [discriminate|lia]|].
-  destruct (Z.ltb_spec 4294967295 (wrap 64 (nsub * 48))) as [Hov|Hno]; [apply good_ret; [discriminate|lia]|].
+  destruct (Z.eqb_spec nsub 0); [apply good_ret; [okt|lia]|].
+  destruct (Z.ltb_spec 4294967295 (wrap 64 (nsub * 48))) as [Hov|Hno]; [apply good_ret; [okt|lia]|].
   rewrite wrap_small in Hno by lia.
   rewrite (wrap_small 32 (nsub * 48)) by lia. rewrite (wrap_small 32 (nsub * 32)) by lia.
-  apply good_g_read; [assumption|exact Hi|unfold u32; lia|lia|intros H1].
-  apply good_g_read; [assumption|exact Ho|unfold u32; lia|lia|intros H2].
+  apply good_g_read; [discriminate|assumption|exact Hi|unfold u32; lia|lia|intros H1].
+  apply good_g_read; [discriminate|assumption|exact Ho|unfold u32; lia|lia|intros H2].
   assert (Dr' : exists d, D d /\ sub_region (r, Z.of_nat 4) d) by (exists (r, 4); split; [assumption|apply sub_refl]).
-  assert (Gd : forall o, o <> Panic -> good m D (B - (64 * nsub + 64)) (ret o)) by (intros; apply good_ret; [assumption|lia]).
+  assert (Gd : forall o, okout o -> good m D (B - (64 * nsub + 64)) (ret o)) by (intros; apply good_ret; [assumption|lia]).
   assert (Gw : good m D (B - (64 * nsub + 64)) (g_wfix m r 4 efault done)).
-  { apply good_g_wfix; [assumption|exact Hr|lia|exact Dr'| |]; apply Gd; discriminate. }
+  { apply good_g_wfix; [assumption|exact Hr|lia|exact Dr'| |]; apply Gd; okt. }
   apply good_addw; [unfold okw; cbn [fst snd]; lia|exists (outp, 32 * nsub); split; [assumption|unfold sub_region; cbn [fst snd]; lia]|].
-  apply good_g_wfix; [assumption|exact Hr|lia|exact Dr'|apply good_ret; [discriminate|lia]|].
+  apply good_g_wfix; [assumption|exact Hr|lia|exact Dr'|apply good_ret; [okt|lia]|].
   apply good_adda; [lia|].
   pose proof (poll_loop_ok e v nsub ltac:(lia) ltac:(lia) (S (Z.to_nat nsub)) 0 0 0 ltac:(lia) ltac:(lia) ltac:(lia) ltac:(lia) ltac:(lia)) as Hl.
   destruct (poll_loop e v nsub (nsub * 48) (nsub * 32) (S (Z.to_nat nsub)) 0 0 0) as [o|nev blk]; cbn [poll_tail].
   { apply Gd. exact Hl. }
   destruct Hl as (L0 & L1 & L2).
-  destruct (nev =? nsub); [apply Gd; discriminate|].
-  destruct (lookup e FdStdin); [|apply Gd; discriminate].
+  destruct (nev =? nsub); [apply Gd; okt|].
+  destruct (lookup e FdStdin); [|apply Gd; okt].
   apply good_hostop; [lia|].
   destruct (h_n h =? 0); [exact Gw|].
   destruct (blk_loop_ok nsub (Z.to_nat blk) nev L0 ltac:(lia) ltac:(lia)) as (nev' & ->).
-  destruct (nev' =? nsub); cbn [negb]; [apply Gd; discriminate|exact Gw].
+  destruct (nev' =? nsub); cbn [negb]; [apply Gd; okt|exact Gw].
 Qed.
 
 (* ---------------------------------------------------------------- the other shapes *)
@@ -349,7 +357,7 @@ Lemma atpath_good m (D : Z * Z -> Prop) B p len er k : wf_mem m -> u32 p -> u32 
   good m D B (atpath m p len er k).
 Proof.
   intros Hm Hp Hl HB Hk HB'. unfold atpath. unfold u32 in *.
-  apply good_g_read; [assumption|exact Hp|exact Hl|assumption|intros Hle].
+  apply good_g_read; [discriminate|assumption|exact Hp|exact Hl|assumption|intros Hle].
   apply good_adda; [lia|]. apply good_hostop; [apply HB'; lia|apply Hk; lia].
 Qed.
 
@@ -369,23 +377,27 @@ Definition bound (e : env) (m : mem) (c : call) : Z :=
 Lemma insert_at_alloc_nonneg t k : 0 <= insert_at_alloc t k.
 Proof. unfold insert_at_alloc. cbv zeta. destruct (0 <? k / 64 - t + 1) eqn:E; lia. Qed.
 
+(* regions designated for output, and (f, -1) for the descriptors the call names *)
+Definition desigx (e : env) (v : view) (c : call) (d : Z * Z) : Prop :=
+  desig e v c d \/ (snd d = -1 /\ In (fst d) (desig_fds c)).
+
 Ltac pick0 := left; reflexivity.
 Ltac pick1 := right; left; reflexivity.
-Ltac dsgk pk := eexists; split; [left; cbn [desig_list In]; pk | first [apply sub_refl | unfold sub_region; cbn [fst snd]; lia]].
+Ltac dsgk pk := eexists; split; [left; left; cbn [desig_list In]; pk | first [apply sub_refl | unfold sub_region; cbn [fst snd]; lia]].
 Ltac dsg := first [dsgk pick0 | dsgk pick1].
-Ltac gret := apply good_ret; [discriminate|lia].
+Ltac gret := apply good_ret; [okt|lia].
 
 Lemma wasi_good e m v h c : wf_env e -> wf_mem m -> wf_view v -> wf_call c -> host_ok h c -> nil_fs_case e h c = false ->
-  good m (desig e v c) (bound e m c) (wasi e m v h c).
+  good m (desigx e v c) (bound e m c) (wasi e m v h c).
 Proof.
   intros He Hm Hv Hc (Hn0 & Hh) Hnf. pose proof He as (Ha & Hen & Ht & Htc & Hnd).
   pose proof Hm as Hm'. unfold wf_mem in Hm'.
   destruct c; cbn [wasi bound wf_call] in *; unfold u64 in *;
     repeat match goal with H : _ /\ _ |- _ => destruct H end.
-  - (* args_get *) apply write_offsets_good; try assumption; try lia; left; cbn; auto.
+  - (* args_get *) apply write_offsets_good; try assumption; try lia; left; left; cbn; auto.
   - (* args_sizes_get *) unfold sizes_get. apply good_g_wfix; try assumption; try lia; [dsg|gret|].
     apply good_g_wfix; try assumption; try lia; [dsg|gret|gret].
-  - apply write_offsets_good; try assumption; try lia; left; cbn; auto.
+  - apply write_offsets_good; try assumption; try lia; left; left; cbn; auto.
   - unfold sizes_get. apply good_g_wfix; try assumption; try lia; [dsg|gret|].
     apply good_g_wfix; try assumption; try lia; [dsg|gret|gret].
   - (* clock_res_get *) unfold clock_get. destruct ((id =? ClockIDRealtime) || (id =? ClockIDMonotonic)); [|gret].
@@ -395,27 +407,28 @@ Proof.
   - (* fd_advise *) apply good_with_fd; [lia|intros x Hx]. destruct (wrap 8 adv <=? FdAdviceNoReuse); gret.
   - (* fd_allocate *) apply good_with_fd; [lia|intros x Hx]. destruct (swrap 64 (wrap 64 (off + len)) <? 0); [gret|].
     apply good_hostop; [lia|gret].
-  - (* fd_close *) apply good_with_fd; [lia|intros x Hx]. apply good_hostop; [lia|]. apply good_addf. gret.
+  - (* fd_close *) apply good_with_fd; [lia|intros x Hx]. apply good_hostop; [lia|]. apply good_addf; [right; cbn; auto|gret].
   - (* fd_datasync *) unfold fd_hostop. apply good_with_fd; [lia|intros x Hx]. apply good_hostop; [lia|gret].
-  - (* fd_fdstat_get *) apply good_g_read; [assumption|assumption|unfold u32; lia|lia|intros Hle].
+  - (* fd_fdstat_get *) apply good_g_read; [discriminate|assumption|assumption|unfold u32; lia|lia|intros Hle].
     apply good_with_fd; [lia|intros x Hx]. apply good_hostop; [lia|].
     apply good_addw; [unfold okw, u32 in *; cbn [fst snd]; lia|dsg|gret].
   - (* fd_fdstat_set_flags *) match goal with |- context [if ?b then _ else _] => destruct b end; [gret|].
     unfold fd_hostop. apply good_with_fd; [lia|intros x Hx]. apply good_hostop; [lia|gret].
   - gret.
-  - (* fd_filestat_get *) apply good_g_read; [assumption|assumption|unfold u32; lia|lia|intros Hle].
+  - (* fd_filestat_get *) apply good_g_read; [discriminate|assumption|assumption|unfold u32; lia|lia|intros Hle].
     apply good_with_fd; [lia|intros x Hx]. apply good_hostop; [lia|].
     apply good_addw; [unfold okw, u32 in *; cbn [fst snd]; lia|dsg|gret].
   - unfold fd_hostop. apply good_with_fd; [lia|intros x Hx]. apply good_hostop; [lia|gret].
   - (* fd_filestat_set_times *) apply good_with_fd; [lia|intros x Hx]. cbn [nil_fs_case] in Hnf. rewrite Hx in Hnf.
     destruct (times_invalid (wrap 16 fl)); [gret|]. cbn [negb andb] in Hnf.
-    destruct ((h_e1 h =? EPERM) || (h_e1 h =? ENOSYS)); cbn [andb] in Hnf.
-    + rewrite Hnf. apply good_hostop; [lia|gret].
+    destruct ((h_e1 h =? EPERM) || (h_e1 h =? ENOSYS)) eqn:Ee; cbn [andb] in Hnf.
+    + destruct (nofs x); cbn [andb] in Hnf; [|apply good_hostop; [lia|gret]].
+      destruct set_times_checks_fs; [|discriminate]. unfold EPERM, ENOSYS in Ee. gret.
     + apply good_hostop; [lia|gret].
   - (* fd_pread *) apply good_with_fd; [lia|intros x Hx].
     apply readv_good; try assumption; try lia.
     + intros n. apply good_g_wfix; try assumption; try lia; [dsg|gret|gret].
-    + intros i Hi. right. left. exists i. cbn [desig_iovs]. auto.
+    + intros i Hi. left. right. left. exists i. cbn [desig_iovs]. auto.
   - (* fd_prestat_get *) apply good_with_fd; [lia|intros x Hx]. destruct (f_pre x); cbn [negb]; [|gret].
     apply good_hostop; [lia|]. apply good_g_wfix; try assumption; try lia; [dsg|gret|gret].
   - (* fd_prestat_dir_name *) apply good_with_fd; [lia|intros x Hx]. destruct (f_pre x); cbn [negb]; [|gret].
@@ -432,26 +445,26 @@ Proof.
   - (* fd_read *) apply good_with_fd; [lia|intros x Hx].
     apply readv_good; try assumption; try lia.
     + intros n. apply good_g_wfix; try assumption; try lia; [dsg|gret|gret].
-    + intros i Hi. right. left. exists i. cbn [desig_iovs]. auto.
+    + intros i Hi. left. right. left. exists i. cbn [desig_iovs]. auto.
   - (* fd_readdir *) destruct (len <? DirentSize); [gret|].
     apply good_with_fd; [lia|intros x Hx]. apply good_hostop; [lia|].
     apply good_adda; [pose proof (wrap_range 32 (wrap 32 (len / DirentSize + 1) + 1) ltac:(lia)); lia|].
     assert (Hmin : Z.min (wrap 32 (wrap 32 (len / DirentSize + 1) + 1)) (e_ndir e) <= e_ndir e) by lia.
     apply good_hostop; [lia|].
-    assert (Gw : good m (desig e v (FdReaddir fd buf len cookie res_))
+    assert (Gw : good m (desigx e v (FdReaddir fd buf len cookie res_))
                    (8 * m_len m + 1024 * e_ndir e + 16384 - 64 * Z.min (wrap 32 (wrap 32 (len / DirentSize + 1) + 1)) (e_ndir e))
                    (g_wfix m res_ 4 efault done)).
     { apply good_g_wfix; try assumption; try lia; [dsg|gret|gret]. }
     destruct (0 <? h_n h) eqn:E; [|exact Gw].
     unfold u32 in *.
-    apply good_g_read; [assumption|unfold u32; lia|unfold u32; lia|lia|intros Hle].
+    apply good_g_read; [discriminate|assumption|unfold u32; lia|unfold u32; lia|lia|intros Hle].
     apply good_addw; [unfold okw; cbn [fst snd]; lia| |exact Gw].
-    exists (buf, len). split; [left; cbn; auto|unfold sub_region; cbn [fst snd]; lia].
+    exists (buf, len). split; [left; left; cbn; auto|unfold sub_region; cbn [fst snd]; lia].
   - (* fd_renumber *) unfold renumber. pose proof (insert_at_alloc_nonneg (e_tcap e) (i32 to)) as Hia.
     destruct (lookup e (i32 fd)); [|gret].
     destruct (i32 to <? 0); [gret|]. destruct (f_pre f); [gret|]. destruct (i32 fd =? i32 to); [gret|].
     match goal with |- context [if ?b then _ else _] => destruct b end; [gret|].
-    apply good_addf. apply good_addf. apply good_adda; [lia|]. gret.
+    apply good_addf; [right; cbn; auto|]. apply good_addf; [right; cbn; auto|]. apply good_adda; [lia|]. gret.
   - (* fd_seek *) unfold fd_seek. apply good_with_fd; [lia|intros x Hx]. destruct (f_dir x); [gret|].
     apply good_hostop; [lia|]. apply good_g_wfix; try assumption; try lia; [dsg|gret|gret].
   - unfold fd_hostop. apply good_with_fd; [lia|intros x Hx]. apply good_hostop; [lia|gret].
@@ -464,7 +477,7 @@ Proof.
     apply good_hostop; [lia|gret].
   - (* path_filestat_get *) unfold u32 in *. apply atpath_good; try assumption; try (unfold u32; lia); intros Hle; try lia.
     apply good_hostop; [lia|].
-    apply good_g_read; [assumption|unfold u32; lia|unfold u32; lia|lia|intros Hle2].
+    apply good_g_read; [discriminate|assumption|unfold u32; lia|unfold u32; lia|lia|intros Hle2].
     apply good_addw; [unfold okw; cbn [fst snd]; lia|dsg|gret].
   - (* path_filestat_set_times *) destruct (times_invalid (wrap 16 ff)); [gret|].
     unfold path_op. unfold u32 in *. apply atpath_good; try assumption; try (unfold u32; lia); intros Hle; try lia.
@@ -474,13 +487,13 @@ Proof.
     apply good_hostop; [lia|gret].
   - (* path_open *) unfold u32 in *. apply atpath_good; try assumption; try (unfold u32; lia); intros Hle; try lia.
     destruct (len =? 0); [gret|]. apply good_hostop; [lia|]. apply good_adda; [lia|].
-    apply good_g_wfix; try assumption; try (unfold u32; lia); [dsg|gret|]. apply good_addf. gret.
+    apply good_g_wfix; try assumption; try (unfold u32; lia); [dsg|gret|]. apply good_addf; [right; cbn; auto|gret].
   - (* path_readlink *) destruct ((len =? 0) || (bl =? 0)); [gret|].
     unfold u32 in *. apply atpath_good; try assumption; try (unfold u32; lia); intros Hle; try lia.
     apply good_hostop; [lia|]. destruct (Z.ltb_spec bl (h_n h)); [gret|].
     apply good_adda; [lia|].
     apply good_g_write; try assumption; try (unfold u32; lia).
-    + exists (buf, bl). split; [left; cbn; auto|unfold sub_region; cbn [fst snd]; lia].
+    + exists (buf, bl). split; [left; left; cbn; auto|unfold sub_region; cbn [fst snd]; lia].
     + gret.
     + apply good_g_wfix; try assumption; try (unfold u32; lia); [dsg|gret|gret].
   - (* path_remove_directory *) unfold path_op. unfold u32 in *. apply atpath_good; try assumption; try (unfold u32; lia); intros Hle; try lia.
@@ -491,38 +504,38 @@ Proof.
   - (* path_symlink *) apply good_with_fd; [lia|intros x Hx]. destruct (f_dir x); cbn [negb]; [|gret].
     destruct (Z.eqb_spec ol 0); cbn [orb]; [gret|]. destruct (nl =? 0); [gret|].
     unfold u32 in *.
-    apply good_g_read; [assumption|unfold u32; lia|unfold u32; lia|lia|intros Hle].
+    apply good_g_read; [discriminate|assumption|unfold u32; lia|unfold u32; lia|lia|intros Hle].
     apply atpath_good; try assumption; try (unfold u32; lia); intros Hle2; try lia.
     destruct (Z.ltb_spec 0 ol); cbn [negb]; [|lia]. apply good_hostop; [lia|gret].
   - (* path_unlink_file *) unfold path_op. unfold u32 in *. apply atpath_good; try assumption; try (unfold u32; lia); intros Hle; try lia.
     apply good_hostop; [lia|gret].
-  - (* poll_oneoff *) apply poll_good; try assumption; try lia; left; cbn; auto.
+  - (* poll_oneoff *) apply poll_good; try assumption; try lia; left; left; cbn; auto.
   - gret.
   - gret.
   - gret.
-  - (* random_get *) apply good_g_read; [assumption|assumption|assumption|lia|intros Hle].
+  - (* random_get *) apply good_g_read; [discriminate|assumption|assumption|assumption|lia|intros Hle].
     apply good_hostop; [lia|]. unfold u32 in *. apply good_addw; [unfold okw; cbn [fst snd]; lia|dsg|gret].
   - (* sock_accept *) apply good_with_fd; [lia|intros x Hx].
     destruct (negb (f_pre x) || negb (f_sock x =? 1)); [gret|]. apply good_hostop; [lia|].
-    apply good_g_wfix; try assumption; try lia; [dsg| |]; apply good_addf; (apply good_adda; [lia|gret]).
+    apply good_g_wfix; try assumption; try lia; [dsg| |]; (apply good_addf; [right; cbn; auto|]); (apply good_adda; [lia|gret]).
   - (* sock_recv *) apply good_with_fd; [lia|intros x Hx]. destruct (f_sock x =? 2); cbn [negb]; [|gret].
     match goal with |- context [if ?b then _ else _] => destruct b end; [gret|].
-    assert (Gf : good m (desig e v (SockRecv fd iovs cnt fl res1 res2)) (8 * m_len m + 1024 * e_ndir e + 16384) (recv_fin m res1 res2)).
+    assert (Gf : good m (desigx e v (SockRecv fd iovs cnt fl res1 res2)) (8 * m_len m + 1024 * e_ndir e + 16384) (recv_fin m res1 res2)).
     { unfold recv_fin.
-      assert (G2 : good m (desig e v (SockRecv fd iovs cnt fl res1 res2)) (8 * m_len m + 1024 * e_ndir e + 16384) (g_wfix m res2 2 done done)).
+      assert (G2 : good m (desigx e v (SockRecv fd iovs cnt fl res1 res2)) (8 * m_len m + 1024 * e_ndir e + 16384) (g_wfix m res2 2 done done)).
       { apply good_g_wfix; try assumption; try lia; [dsg|gret|gret]. }
       apply good_g_wfix; try assumption; try lia; try exact G2; dsg. }
     match goal with |- context [if ?b then _ else _] => destruct b end.
-    + apply good_g_rfix; [assumption|assumption|lia|lia|].
-      apply good_g_rfix; [assumption|pose proof (wrap_range 32 (iovs + 4) ltac:(lia)); unfold u32; lia|lia|lia|].
+    + apply good_g_rfix; [discriminate|assumption|assumption|lia|lia|].
+      apply good_g_rfix; [discriminate|assumption|pose proof (wrap_range 32 (iovs + 4) ltac:(lia)); unfold u32; lia|lia|lia|].
       destruct (Hv 0) as (Hu1 & Hu2).
-      apply good_g_read; [assumption|assumption|assumption|lia|intros Hle].
+      apply good_g_read; [discriminate|assumption|assumption|assumption|lia|intros Hle].
       apply good_hostop; [lia|].
       apply good_addw; [unfold okw, u32 in *; cbn [fst snd]; lia| |exact Gf].
       exists (v_iov v 0). split; [|rewrite <- surjective_pairing; apply sub_refl].
-      right. right. do 6 eexists. split; reflexivity.
+      left. right. right. do 6 eexists. split; reflexivity.
     + apply readv_good; try assumption; try lia; [intros n; exact Gf|].
-      intros i Hi. right. left. exists i. cbn [desig_iovs]. auto.
+      intros i Hi. left. right. left. exists i. cbn [desig_iovs]. auto.
   - (* sock_send *) destruct (fl =? 0); cbn [negb]; [|gret].
     apply good_with_fd; [lia|intros x Hx]. destruct (f_sock x =? 2); cbn [negb]; [|gret].
     apply writev_good; try assumption; try lia.
@@ -538,12 +551,25 @@ Proof.
   destruct (lookup e (i32 fd)); [|discriminate].
   destruct (times_invalid (wrap 16 fl)); cbn [negb andb]; [discriminate|].
   destruct ((h_e1 h =? EPERM) || (h_e1 h =? ENOSYS)); cbn [andb]; [|discriminate].
-  intros ->. reflexivity.
+  destruct (nofs f); cbn [andb]; [|discriminate].
+  destruct set_times_checks_fs; cbn [negb]; [discriminate|reflexivity].
 Qed.
 
 Lemma no_host_panic e m v h c : wf_env e -> wf_mem m -> wf_view v -> wf_call c -> host_ok h c ->
   nil_fs_case e h c = false -> r_out (wasi e m v h c) <> Panic.
-Proof. intros He Hm Hv Hc Hh Hn. exact (proj1 (wasi_good e m v h c He Hm Hv Hc Hh Hn)). Qed.
+Proof. intros He Hm Hv Hc Hh Hn. exact (proj1 (proj1 (wasi_good e m v h c He Hm Hv Hc Hh Hn))). Qed.
+
+(* what the guest receives for an [Errno] outcome is never 0, and is a valid WASI errno *)
+Lemma errno_nonzero e m v h c x : wf_env e -> wf_mem m -> wf_view v -> wf_call c -> host_ok h c ->
+  r_out (wasi e m v h c) = Errno x -> x <> 0 /\ 0 < ToErrno x <= 76.
+Proof.
+  intros He Hm Hv Hc Hh Hx. assert (Hnz : x <> 0).
+  { destruct (nil_fs_case e h c) eqn:Hn.
+    - rewrite (nil_fs_panics e m v h c Hn) in Hx. discriminate Hx.
+    - exact (proj2 (proj1 (wasi_good e m v h c He Hm Hv Hc Hh Hn)) x Hx). }
+  split; [exact Hnz|]. unfold ToErrno.
+  repeat match goal with |- context [if ?a =? ?b then _ else _] => destruct (Z.eqb_spec a b) end; lia.
+Qed.
 
 Lemma writes_designated e m v h c : wf_env e -> wf_mem m -> wf_view v -> wf_call c -> host_ok h c ->
   Forall (fun w => (0 <= fst w /\ 0 <= snd w /\ fst w + snd w <= m_len m) /\
@@ -551,7 +577,33 @@ Lemma writes_designated e m v h c : wf_env e -> wf_mem m -> wf_view v -> wf_call
 Proof.
   intros He Hm Hv Hc Hh. destruct (nil_fs_case e h c) eqn:Hn.
   - rewrite (nil_fs_panics e m v h c Hn). unfold ret; cbn [r_w]. constructor.
-  - exact (proj1 (proj2 (wasi_good e m v h c He Hm Hv Hc Hh Hn))).
+  - pose proof (proj1 (proj2 (wasi_good e m v h c He Hm Hv Hc Hh Hn))) as W.
+    eapply Forall_impl; [|exact W]. intros w ((K0 & K1 & K2) & d & [Hd|(Hs & _)] & Hsub); (split; [splits; assumption|]).
+    + exists d. split; assumption.
+    + exfalso. unfold sub_region in Hsub. lia.
+Qed.
+
+Lemma desig_list_nonneg e c : wf_env e -> wf_call c -> forall d, In d (desig_list e c) -> 0 <= snd d.
+Proof.
+  intros ((Hf1 & _ & _) & (Hf2 & _ & _) & _) Hc d Hd.
+  pose proof (nt_size_nonneg _ Hf1). pose proof (nt_size_nonneg _ Hf2).
+  destruct c; cbn [desig_list In wf_call] in *; unfold u32, u64 in *;
+    repeat match goal with H : _ \/ _ |- _ => destruct H | H : False |- _ => destruct H | H : _ = d |- _ => subst d end;
+    cbn [snd]; lia.
+Qed.
+
+(* only the descriptors the call names can change in the table *)
+Lemma table_effect e m v h c : wf_env e -> wf_mem m -> wf_view v -> wf_call c -> host_ok h c ->
+  Forall (fun f => In f (desig_fds c)) (r_fds (wasi e m v h c)).
+Proof.
+  intros He Hm Hv Hc Hh. destruct (nil_fs_case e h c) eqn:Hn.
+  - rewrite (nil_fs_panics e m v h c Hn). unfold ret; cbn [r_fds]. constructor.
+  - pose proof (proj2 (proj2 (proj2 (wasi_good e m v h c He Hm Hv Hc Hh Hn)))) as F.
+    eapply Forall_impl; [|exact F]. intros f [Hd|(_ & Hin)]; [exfalso|exact Hin].
+    destruct Hd as [Hl|[(i & _ & Hi)|(a & b & c5 & r1 & r2 & cnt & _ & Hi)]].
+    + pose proof (desig_list_nonneg e c He Hc _ Hl). cbn [snd] in *. lia.
+    + destruct (Hv i) as (_ & Hu). rewrite <- Hi in Hu. unfold u32 in Hu. cbn [snd] in Hu. lia.
+    + destruct (Hv 0) as (_ & Hu). rewrite <- Hi in Hu. unfold u32 in Hu. cbn [snd] in Hu. lia.
 Qed.
 
 Definition not_renumber (c : call) : Prop := match c with FdRenumber _ _ => False | _ => True end.
@@ -561,7 +613,7 @@ Lemma alloc_bounded e m v h c : wf_env e -> wf_mem m -> wf_view v -> wf_call c -
 Proof.
   intros He Hm Hv Hc Hh Hr. destruct (nil_fs_case e h c) eqn:Hn.
   - rewrite (nil_fs_panics e m v h c Hn). unfold ret; cbn [r_alloc]. destruct He as (_ & _ & _ & _ & Hnd). unfold wf_mem in Hm. lia.
-  - pose proof (proj2 (proj2 (wasi_good e m v h c He Hm Hv Hc Hh Hn))) as Hb.
+  - pose proof (proj1 (proj2 (proj2 (wasi_good e m v h c He Hm Hv Hc Hh Hn)))) as Hb.
     destruct c; cbn [bound not_renumber] in *; try exact Hb. contradiction.
 Qed.
 
@@ -615,12 +667,17 @@ Proof.
 Qed.
 
 (* the panic that is reachable today: fd_filestat_set_times on stdin when File.Utimens answers ENOSYS *)
-Lemma set_times_nil_fs_refuted :
+Lemma set_times_nil_fs_refuted : set_times_checks_fs = false ->
   exists e m v h c, wf_env e /\ wf_mem m /\ wf_view v /\ wf_call c /\ host_ok h c /\ r_out (wasi e m v h c) = Panic.
 Proof.
+  intros Hflag.
   exists env0, (mem_of 65536), view0, {| h_e1 := ENOSYS; h_e2 := 0; h_e3 := 0; h_n := 0; h_rw := fun _ => (0, 0) |}, (FdFilestatSetTimes 0 1 0 0).
   split; [exact env0_wf|]. split; [exact mem1_wf|]. split; [exact view0_wf|].
-  split; [cbn [wf_call]; unfold u32, u64; lia|]. split; [unfold host_ok; cbn [h_n]; lia|]. vm_compute; reflexivity.
+  split; [cbn [wf_call]; unfold u32, u64; lia|]. split; [unfold host_ok; cbn [h_n]; lia|].
+  cbn [wasi]. unfold with_fd. replace (lookup env0 (i32 0)) with (Some (ent true false 5 0)) by (vm_compute; reflexivity).
+  replace (times_invalid (wrap 16 0)) with false by (vm_compute; reflexivity).
+  cbn [h_e1]. replace ((ENOSYS =? EPERM) || (ENOSYS =? ENOSYS)) with true by (vm_compute; reflexivity).
+  replace (nofs (ent true false 5 0)) with true by (vm_compute; reflexivity). rewrite Hflag. reflexivity.
 Qed.
 
 (* every error number the guest can see is a valid, non-zero WASI errno *)
